@@ -2,6 +2,7 @@ package govc
 
 import (
 	"go/types"
+	"sort"
 	"strings"
 
 	"golang.org/x/tools/go/ssa"
@@ -92,8 +93,61 @@ func (e *Engine) effects(fn *ssa.Function) *effSet {
 	return res
 }
 
+// frameConfirmed: does the write-effect analysis of fn's BODY (callees by their contracts/effects) stay
+// within the keys of its own `assigns` clause? Used to tell proved frames from assumed ones in the evidence.
+func (e *Engine) frameConfirmed(con *Contract, fn *ssa.Function) (bool, string) {
+	if fn == nil || fn.Blocks == nil {
+		return false, "no body"
+	}
+	res := &effSet{keys: map[string]bool{}}
+	e.skipOwnContract = fn
+	e.effectsOnce(fn, res)
+	e.skipOwnContract = nil
+	if res.all {
+		return false, "the body has calls with unknown effects (" + res.why + ")"
+	}
+	allowed := map[string]bool{}
+	for _, a := range con.Assigns {
+		for _, k := range e.resolveAssign(con, a, nil) {
+			allowed[k] = true
+		}
+	}
+	var extra []string
+	for k := range res.keys {
+		if !allowed[k] && !allowed["*"] {
+			extra = append(extra, k)
+		}
+	}
+	if len(extra) > 0 {
+		sort.Strings(extra)
+		if len(extra) > 4 {
+			extra = append(extra[:4], "...")
+		}
+		return false, "the body may write " + strings.Join(extra, " ")
+	}
+	return true, ""
+}
+
+var frameCache = map[*ssa.Function][2]string{}
+
+func (e *Engine) frameConfirmedCached(con *Contract, fn *ssa.Function) (bool, string) {
+	if r, ok := frameCache[fn]; ok {
+		return r[0] == "ok", r[1]
+	}
+	ok, why := e.frameConfirmed(con, fn)
+	v := "no"
+	if ok {
+		v = "ok"
+	}
+	frameCache[fn] = [2]string{v, why}
+	return ok, why
+}
+
 func (e *Engine) effectsOnce(fn *ssa.Function, res *effSet) {
 	so := e.effSo
+	if e.skipOwnContract == fn {
+		goto body
+	}
 	if con := e.contractFor(fn); con != nil && con.HasPreserves {
 		res.addAllExcept(e.preservedKeys(con), "preserves clause of "+con.Key)
 		return
@@ -111,6 +165,7 @@ func (e *Engine) effectsOnce(fn *ssa.Function, res *effSet) {
 		}
 		return
 	}
+body:
 	if fn.Blocks == nil {
 		name := fn.String()
 		if fn.Pkg != nil {
